@@ -458,6 +458,8 @@ class PDFPageInterpreter:
         self.curpath: List[PathSegment] = []
         # argstack: stack for command arguments.
         self.argstack: List[PDFStackT] = []
+        # number of inline images seen in this content stream so far.
+        self.inline_image_count = 0
         # set some global states.
         self.scs: Optional[PDFColorSpace] = None
         self.ncs: Optional[PDFColorSpace] = None
@@ -1197,7 +1199,10 @@ class PDFPageInterpreter:
             and obj.get_any(("W", "Width")) is not None
             and obj.get_any(("H", "Height")) is not None
         ):
-            iobjid = str(id(obj))
+            # Name inline images by their position in the content stream,
+            # so that the same document always gives the same result.
+            self.inline_image_count += 1
+            iobjid = "inline-image-%d" % self.inline_image_count
             self.device.begin_figure(iobjid, (0, 0, 1, 1), MATRIX_IDENTITY)
             self.device.render_image(iobjid, obj)
             self.device.end_figure(iobjid)
